@@ -1,4 +1,5 @@
 """C07 — see coq/Properties/C07.v (theorems) and lib/envcheck.py (tie + monitor)."""
+import json
 import envcheck
 from vlib import Check
 
@@ -14,7 +15,7 @@ RUNS = {
     "C20": lambda seed, n: [["-seed", str(seed), "-n", str(n), "-x", "norevoke"]],
 }
 
-RULE = ("random histories over 13 cache configurations (default, minute precision, no cache, SK-only, shared LRU-2, shared simple, SK LRU-1, IK SLRU-1, IK LFU-2, "
+RULE = ("random histories over 14 configurations (default, minute precision, RevokeCheckInterval 0, no cache, SK-only, shared LRU-2, shared simple, SK LRU-1, IK SLRU-1, IK LFU-2, "
         "tinylfu, session cache 2, session cache 1 with expiry, no-cache+shared): 1-2 factories sharing one metastore, 1-3 partitions, encrypt/decrypt "
         "(25% with 1-2 injected faults: err / false duplicate / error-after-write on any boundary call), clock advances drawn from boundary values "
         "(+-1ns around RCI, expiry, precision), revocation of latest/older IK/SK, session close/reopen, factory restart, final decrypt of every record "
@@ -26,6 +27,26 @@ def main(tier, seed, replay):
     ck = Check(prop, tier, seed)
     ck.coq_theorems()
     n = 240 if tier == "quick" else 2400
+    # "any corrupted key record in the metastore", in the engines' own row formats: the SQL and the two DynamoDB metastores under cold
+    # sessions, the full grid implementation x (intermediate | system key row) x 23 kinds of damage
+    dmg_replay = bool(replay) and '"damage"' in open(replay).read()[:2000]
+    if not replay or dmg_replay:
+        druns = [["-replay", replay]] if replay else [["-seed", str(seed + 31), "-n", "230" if tier == "quick" else "1150"]]
+        dcases = envcheck.run_harness(ck, "metadmg", druns)
+        if dcases is None:
+            return ck.finish()
+        dbad = [c for c in dcases if c.get("viol")]
+        ck.oblige(not dbad, "damaged key rows in the SQL / DynamoDB v1 / DynamoDB v2 metastores: Load, LoadLatest, cold Decrypt and Encrypt return an error "
+                  "or the original payload, never other bytes, never a panic (%d cases)" % len(dcases), json.dumps(dbad[:1])[:3000])
+        ck.cov["damaged_key_rows"] = {"cases": len(dcases), "implementations": sorted(set(c["impl"] for c in dcases)),
+                                      "damage_kinds": sorted(set(c["damage"] for c in dcases)),
+                                      "decrypt_outcomes": {k: sum(1 for c in dcases if (c.get("decrypt") or "")[:7] == k[:7]) for k in ("payload", "err")}}
+        if dbad:
+            v = dbad[0]
+            ck.violation(ck.replay_file("keyrow", {"what": v["viol"][0], "Case": {k: v[k] for k in ("impl", "target", "damage", "payload", "seed")}}))
+        if dmg_replay:
+            ck.cov.update({"evaluations": len(dcases), "distinct_nontrivial": len(dcases), "rule": "replay"})
+            return ck.finish()
     runs = [["-replay", replay]] if replay else RUNS[prop](seed, n)
     cases = envcheck.run_harness(ck, "env", runs)
     if cases is None:
